@@ -30,6 +30,10 @@ def case_project(fam, rep):
         import felupe as fem
         rng = rng_for(run.seed, "C19", "project", fam, rep)
         mesh, _ = gen.build_mesh(fam, ["distorted", "curved", "affine"][rep % 3] if not fam.startswith(("tri", "tet")) else "affine", rng)
+        # a part of a few millimetres modelled in metres (and a large one): the projection must not depend on the length unit
+        scale = [1.0, 4e-3, 250.0][(rep + len(fam)) % 3]
+        mesh = mesh.copy(points=mesh.points * scale)
+        run.units["project:length-scale:%g" % scale] += 1
         if fam in ("triangle6", "triangleMINI"):
             reg = gen.make_region(fam, mesh, quadrature=fem.TriangleQuadrature(order=5))  # project() refuses lower rules loudly
         elif fam in ("tetra10", "tetraMINI"):
@@ -393,7 +397,7 @@ def cases(tier, seed):
 SPEC = {
     "required_units": ["project:reproduction:quad", "project:reproduction:hexahedron", "project:reproduction:tetra10", "project:integral:quad9",
                        "project:reproduction:tetraMINI", "extrapolate:quad", "extrapolate:hexahedron", "topoints:average", "topoints:mean",
-                       "flags:extrapolate:average=False", "flags:extrapolate:mean=True", "flags:extrapolate:mean=True,average=False", "flags:project:average=False",
+                       "project:length-scale:0.004", "project:length-scale:250", "flags:extrapolate:average=False", "flags:extrapolate:mean=True", "flags:extrapolate:mean=True,average=False", "flags:project:average=False",
                        "flags:project:dV", "flags:project:mean=True", "flags:project:simplex", "flags:topoints:average=False", "flags:topoints:mean=True",
                        "flags:topoints:single-point", "stress:no-field-argument", "view:Stress[first Piola-Kirchhoff]",
                        "stress:kirchhoff", "stress:cauchy", "stress:cauchy:after-state-change", "stress:kirchhoff:after-state-change", "view:Deformation Gradient", "view:Logarithmic Strain",
